@@ -130,7 +130,7 @@ func opValuePool(p int, thorough bool) []SetOp {
 	certs := []string{ean13, ean13p5, "", "abc", ean13 + "\n", "\n" + ean13p5, ean13 + "-", ean13 + "-1234", ean13 + "-123456", "x" + ean13, ean13p5 + "y"}
 	nb := append(certNeighbourhood(ean13), certNeighbourhood(ean13p5)...)
 	for i, s := range nb {
-		if thorough || i%9 == 0 || strings.ContainsAny(s, "٢१𝟏０") {
+		if thorough || i%9 == 0 || strings.ContainsAny(s, "٢१𝟏０١") {
 			certs = append(certs, s)
 		}
 	}
